@@ -5,18 +5,18 @@ ROOT = os.path.dirname(os.path.dirname(os.path.abspath(__file__)))
 props = [json.loads(l) for l in open(os.path.join(ROOT, "properties.jsonl"))]
 TV = "TLA+ Layer A spec + TLC exhaustive check of the spec + TLC trace validation of histories recorded from the real code"
 CLAIMED = {
- "C01": ("chan", "random sequential programs over all 17 point-to-point flavours (single / batch / in-place / timed / sync / async / conversions) and scheduler-controlled multi-thread scenarios; every history validated by TLC against ChanA (conservation of value ids, failed operations hand the value back)", "sequential"),
+ "C01": ("chan", "random sequential programs over all 17 point-to-point flavours and the broadcast ring (single / batch / in-place / timed / sync / async / conversions), scheduler-controlled multi-thread scenarios (sampled random / PCT schedules and systematically enumerated PCT schedule spaces of small scenarios); every history validated by TLC against ChanA (conservation of value ids, failed operations hand the value back); Layer P protocol models (MpscBoundedP, MpmcWaitP, OneshotP, RendezvousP) checked exhaustively", "sequential"),
  "C02": ("chan", "as C01 with long programs forcing ring wrap / chunk reuse / slab recycling; FIFO is the queue discipline of ChanA (FifoInv in the model check)", ""),
  "C03": ("chan", "bounded flavours: every try_send result, len() observation and blocked send must be explained by an occupancy that never exceeds capacity; exact Full without overlap", ""),
- "C04": ("chan", "close / clone / convert / drop-heavy programs and 'leave' scenarios: drain-then-Disconnected, Closed hands the value back, closed handles reject, second close = CloseError", ""),
- "C05": ("chan", "multi-thread scenarios under a cooperative scheduler that owns the interleaving at every instrumented atomic / lock / park (seeded random + PCT, spurious weak-CAS failures, firing timeouts); a thread found parked at quiescence must be disabled in Layer A", ""),
+ "C04": ("chan", "close / clone / convert / drop-heavy programs and 'leave' scenarios on the point-to-point flavours, the broadcast ring and the topic channel (sequential and threaded): drain-then-Disconnected, Closed hands the value back, closed handles reject, second close = CloseError", ""),
+ "C05": ("chan", "multi-thread scenarios under a cooperative scheduler that owns the interleaving at every instrumented atomic / lock / park (seeded random + PCT, spurious weak-CAS failures, firing timeouts) and the systematically enumerated PCT schedule space (all priority orders x all sets of up to three change points) of small contended scenarios; a thread found parked at quiescence must be disabled in Layer A; Layer P model of the bounded mpsc claim / wake protocol checked for deadlock freedom", ""),
  "C06": ("chan", "futures created / polled / re-polled with another waker / dropped in every order by one task, NoStall obligation at every quiescent point, plus park-based block_on under the scheduler", ""),
  "C07": ("chan", "broadcast kind of ChanA (per-receiver cursors, back-pressure by the slowest live receiver, clone starts at the parent's cursor); sequential and scheduled histories", ""),
- "C08": ("topic", "TopicA (mailboxes, subscriptions at publish time, only full mailboxes drop, Disconnected iff drained and no sender) + sequential sync/async histories", ""),
+ "C08": ("topic", "TopicA (mailboxes, subscriptions at publish time, only full mailboxes drop, Disconnected iff drained and no sender) + sequential sync/async histories + threaded histories (receivers parked in blocking receives while senders publish and leave)", ""),
  "C09": ("chan", "payloads with observable Drop; every library-side drop is attributed to the API action it happened in and must be explainable (unsent value of a payload-less failure, or buffered value nobody can receive), never twice; nothing left at the end", ""),
  "C10": ("lock", "LockA (mutual exclusion, try_ exact without overlap, no waiter blocked while the lock is free for it, cancel-safe futures) + sequential future-level and scheduler-controlled thread histories of HybridMutex / HybridRwLock", ""),
  "C14": ("policy", "PolicyA contract + exact LRU / FIFO orders; TLC enumerates every call sequence up to renaming (spec -> code) replayed on all built-in policies, and validates recorded random histories (code -> spec)", ""),
- "C15": ("loader", "LoaderA (one load per miss, callers return a loaded value, no orphan waiter) + fetch_with scenarios under the scheduler with the cache's loader threads adopted", ""),
+ "C15": ("loader", "LoaderA (one load per miss, callers return a loaded value, no orphan waiter) + fetch_with scenarios under the scheduler: thread-based loader (loader threads adopted) and async loader on an AsyncCache (tasks on scheduler-managed threads)", ""),
 }
 # areas delivered by the sub-agents register themselves here when their recipe file exists
 OPTIONAL = {
@@ -52,7 +52,7 @@ for p in props:
         "technique": TV})
 na = [{"property_id": p["id"], "reason": "check under construction in this round (spec and driver not merged yet); not claimed until it runs green on the unchanged tree"}
       for p in props if p["id"] not in CLAIMED]
-hooks = ["54892a0", "f3b3f85", "4754bfa", "8a6deef", "8ae87ab", "efa0b91"]
+hooks = ["54892a0", "f3b3f85", "4754bfa", "8a6deef", "8ae87ab", "efa0b91", "077c927", "e63aaec"]
 m = {"version": 1, "setup_cmd": "./check setup",
      "hooks": {"guard": "excsn_fibre_verif",
                "enable": "rustflags --cfg excsn_fibre_verif in /verif/harness/.cargo/config.toml (the harness crates have path dependencies on /repo)",
